@@ -329,6 +329,14 @@ def targets(tier='quick'):
         T.append(Target('dyn/schedule[envs=%d]' % ne, 'system_dynamics.compute_dynamics',
                         lambda ip, repo, ne=ne: dyn.cd_scenario(ip, repo, num_envs=ne), post_cd_schedule, RD, PROP,
                         replay=lambda ob: {'func': 'dynamics_with_controls', 'inputs': {'obligation': ob['name']}}))
+    # PT-TEBD: where the chain controls sit inside a step (half chain propagator, process tensors, half chain propagator,
+    # pre controls, record, post controls): the state-machine contract of C14, discharged here as well
+    from . import c14
+    RTB = c14.tebd_registry()
+    for fresh in (True, False):
+        t = Target('tebd/step-structure[%s]' % ('fresh' if fresh else 'continue'), 'pt_tebd.PtTebd.compute', c14.scen_tebd(fresh), c14.post_tebd, RTB, PROP,
+                   replay=lambda ob: {'func': 'tebd_controls', 'inputs': {'obligation': ob['name']}})
+        T.append(t)
     return T
 
 
